@@ -596,6 +596,82 @@ def entity_start_rule(ctx, prefix):
                witness=None if not rejected else "&Omega; / &Eacute; stay undecoded, without a diagnostic")]
 
 
+def wave10_rules(ctx):
+    """obligations added after the tenth wave of seeded changes"""
+    import absint as ai
+    import string
+    from share import relabel
+    ob = ctx.ob
+    tc = ctx.tc
+    obs = []
+    PROBES = [chr(c) for c in list(range(0, 0x100)) + [0x2028, 0x2029, 0xFEFF, 0x3000, 0x200B, 0x1680, 0x2003, 0x4E2D, 0x00E9, 0x0416, 0x03B1, 0x0660]]
+
+    def accepted(f):
+        ps_ = [q for q in f.params if not q.get("self")]
+        if len(ps_) != 1 or (ps_[0].get("ty") or "").strip() != "char":
+            return None
+        pn = ps_[0].get("pat", {}).get("name")
+        helpers = {g.name: g for g in tc.fns if g.body and g.base == f.base and g is not f and (g.ret or "").strip() == "bool"}
+        acc = set()
+        for ch in PROBES:
+            it = ai.Interp(idx=tc, inline=helpers)
+            try:
+                outs = it.run(f.body, {pn: ch})
+            except ai.TooManyPaths:
+                return None
+            vs = set(o.value for o in outs)
+            if len(vs) != 1 or any(o.tainted for o in outs) or not (True in vs or False in vs):
+                if ch.isascii():
+                    return None
+                continue   # a character whose Unicode class this analysis does not know: not part of the table that is compared
+            if True in vs:
+                acc.add(ch)
+        return acc
+    # (1) blank text is what HTML calls white space (space, tab, line feed, form feed, carriage return - the parser also takes
+    #     U+000B): a character beyond these is content of a text node and is not trimmed or dropped
+    for f in tc.fns:
+        if f.body and f.name == "is_template_whitespace" and f.module[:1] == ["parse"]:
+            acc = accepted(f)
+            want = set(" \t\n\x0b\x0c\r")
+            if acc is None:
+                obs.append(ob("C12.text/whitespace-table", None, ctx.where(f), "the table is not a function of one character this rule can tabulate"))
+            else:
+                extra, miss = sorted(acc - want), sorted(want - acc)
+                obs.append(ob("C12.text/whitespace-table", not extra and not miss, ctx.where(f), "template white space is exactly space and U+0009..U+000D" if not extra and not miss else "white space table: extra %s, missing %s" % (["U+%04X" % ord(c) for c in extra], ["U+%04X" % ord(c) for c in miss]),
+                              witness=None if not extra else "a text node consisting of U+FEFF (or &#xFEFF;) is dropped"))
+    # (2) a `<` starts a tag only in front of an ASCII letter or `_`; tag and attribute names are ASCII: `a<é` is text
+    for f in tc.fns:
+        if f.body and f.base == "Ident" and f.name in ("is_start_char", "is_following_char") and f.module[:2] == ["parse", "tag"]:
+            acc = accepted(f)
+            start = set(string.ascii_letters + "_")
+            want = start if f.name == "is_start_char" else start | set(string.digits + "-.")
+            if acc is None:
+                obs.append(ob("C12.text/name-table/%s" % f.name, None, ctx.where(f), "the table is not a function of one character this rule can tabulate"))
+            else:
+                extra, miss = sorted(acc - want), sorted(want - acc)
+                obs.append(ob("C12.text/name-table/%s" % f.name, not extra and not miss, ctx.where(f), "markup names are made of ASCII letters, `_`%s" % ("" if f.name == "is_start_char" else ", digits, `-` and `.`") if not extra and not miss else "name table: extra %s, missing %s" % (["U+%04X" % ord(c) for c in extra][:6], miss[:6]),
+                              witness=None if not extra else "the text `a<é b` loses everything from the `<`: it is read as the tag `é`"))
+    # (3) a quoted attribute value that is kept as a name (wx:key, template name, src ..) is read by the entity-decoding scanner:
+    #     a raw slice of the source never becomes a name
+    raw = []
+    n_names = 0
+    for f in tc.fns:
+        if not f.body or f.module[:2] != ["parse", "tag"]:
+            continue
+        for n in sir.walk(f.body, into_closures=True):
+            if n.get("k") == "struct" and n["segs"][-1] in ("StrName", "Ident") and any(x["name"] == "name" for x in n["fields"]):
+                n_names += 1
+                ne = [x["e"] for x in n["fields"] if x["name"] == "name"][0]
+                if any(y.get("k") == "mcall" and y["m"] in ("code_slice", "cur_str", "skip_until_before", "skip_until_after") for y in sir.walk(ne)):
+                    raw.append("%s builds a name from `%s`" % (f.name, sir.expr_str(ne)[:50]))
+    obs.append(ob("C12.entity/names-decoded", False if raw else True if n_names >= 3 else None, "parse/tag.rs", "; ".join(raw[:2]) if raw else "%d names built, none from a raw slice of the source" % n_names,
+                  witness=None if not raw else "wx:key=\"a&amp;b\" reaches the runtime as `a&amp;b`"))
+    # (4) a constant subscript keeps its subscript form: the member skeleton of `a[..]` (shared with C06.paths)
+    from rules.c06 import paths_rule
+    obs += relabel([o for o in paths_rule(ctx) if "DynamicMember" in o["key"] or "StaticMember" in o["key"]], "C06.paths", "C12.member/paths")
+    return obs
+
+
 def wave7_rules(ctx):
     """obligations added after the seventh wave of seeded changes"""
     ob = ctx.ob
@@ -781,6 +857,7 @@ def run(ctx):
             x["key"] = x["key"].replace("C13.suffix", "C12.paths/suffix")
             obs.append(x)
     obs += wave7_rules(ctx)
+    obs += wave10_rules(ctx)
     obs += entity_start_rule(ctx, "C12.entity")
     obs += dash_to_camel_table(ctx, "C12.names")
     return obs
